@@ -17,7 +17,7 @@ TRUTH_CLAUSES = {"is_true-overclaims", "is_false-overclaims"}
 APPROX_CLAUSES = {"approx-unsat-on-sat", "approx-excludes-value", "approx-min-too-high", "approx-max-too-low",
                   "approx-none-on-sat"}
 SPLIT_CLAUSES = {"split-shared-vars", "split-conjuncts", "split-duplicate", "split-models"}
-CORE_CLAUSES = {"core-on-sat", "core-not-subset", "core-satisfiable"}
+CORE_CLAUSES = {"core-on-sat", "core-not-subset", "core-satisfiable"}   # unsat_core() on sat / foreign element / sat core
 FAULT_CLAUSES = {"fault-answered", "fault-foreign-exception", "fault-unsat-on-sat"}
 
 
@@ -53,6 +53,80 @@ REPL_EXACT = [["SolverReplacement", {}], ["SolverReplacement", {"auto_replace": 
 APPROX = [["SolverVSA", {}], ["SolverHybrid", {"approximate_first": True}]]
 ALL_EXACT = PLAIN + COMPOSITE + [["SolverReplacement", {}], ["SolverHybrid", {}]]
 TRACKED = [["Solver", {"track": True}], ["SolverComposite", {"track": True}], ["SolverCacheless", {"track": True}]]
+
+def directed_C15(tier, seed):
+    """scripted multi-solver scenarios: three independently created solvers over different variables, each solved (warm
+    caches) or not, then combine / merge in every role order, then probes"""
+    import random
+    from .w_solver import alphabet
+    from .term import free_vars
+    A = alphabet(3)
+    rng = random.Random(seed + 77)
+    cx = [c for c in A["cons"] if set(free_vars(c)) == {"x"}]
+    cy = [c for c in A["cons"] if set(free_vars(c)) == {"y"}]
+    cxy = [c for c in A["cons"] if set(free_vars(c)) == {"x", "y"}]
+    H = []
+    classes = [["Solver", {}], ["SolverCacheless", {}], ["SolverComposite", {}], ["SolverHybrid", {}], ["SolverStrings", {}]]
+    for cls, kw in classes:
+        for _ in range(10 if tier == "quick" else 120):
+            h = [["new", cls, kw], ["new", cls, kw], ["new", cls, kw]]
+            pools = rng.choice([[cy, cx, cx], [cx, cy, cx], [cx, cx, cy], [cx, cy, cxy], [cy, cx, cxy]])
+            for sid in range(3):
+                for _k in range(rng.randint(1, 2)):
+                    h.append(["add", sid, [rng.choice(pools[sid])]])
+                if rng.random() < 0.8:
+                    h.append([rng.choice(["satisfiable", "eval"]), sid] + ([[]] if h[-1][0] != "eval" else []))
+                    if h[-1][0] == "eval":
+                        h[-1] = ["eval", sid, rng.choice(A["exprs"][:2]), rng.choice([1, 9]), []]
+                    else:
+                        h[-1] = ["satisfiable", sid, []]
+            order = rng.sample([0, 1, 2], 3)
+            if rng.random() < 0.6:
+                h.append(["combine", order[0], [order[1], order[2]]])
+            else:
+                h.append(["merge", order[0], [order[1], order[2]], [rng.choice(A["cons"]) for _ in range(3)], -1])
+            if rng.random() < 0.3:
+                h.append(["split", 3])
+            H.append(h)
+    return H
+
+
+def directed_C16(tier, seed):
+    """scripted core scenarios: unsatisfiability established at add() time by a single contradicting constraint (the
+    cheap pairwise path) or only by the backend, then split / merge with a satisfiable sibling / branch; unsat_core is
+    probed on every live tracked solver at the end (core_probes)"""
+    import random
+    from .w_solver import alphabet
+    from .term import BVS, BVV, T
+    A = alphabet(3)
+    x, y = BVS("x", 3), BVS("y", 3)
+    rng = random.Random(seed + 16)
+    H = []
+    for cls in ("Solver", "SolverComposite", "SolverCacheless"):
+        for _ in range(12 if tier == "quick" else 150):
+            a, b = rng.sample(range(8), 2)
+            h = [["new", cls, {"track": True}]]
+            pre = [["add", 0, [T("__eq__", y, BVV(rng.randrange(8), 3))]], ["add", 0, [T("__eq__", x, BVV(a, 3))]]]
+            if rng.random() < 0.5:
+                pre.reverse()
+            h += pre
+            if rng.random() < 0.5:
+                h.append(["satisfiable", 0, []])
+            h.append(["branch", 0])                                                  # 1 = live sibling
+            contra = rng.choice([T("__eq__", x, BVV(b, 3)), T("__ne__", x, BVV(a, 3)), T("UGT", x, BVV(7, 3))])
+            h.append(["add", 0, [contra]] if rng.random() < 0.7 else ["add", 0, [contra, T("ULE", y, BVV(7, 3))]])
+            h.append(["add", 1, [T("ULT", x, BVV(a + 1 if a < 7 else 7, 3))]] if rng.random() < 0.6 else ["satisfiable", 1, []])
+            h.append(["unsat_core", 0])
+            r = rng.random()
+            if r < 0.4:
+                h.append(["split", 0])
+            elif r < 0.8:
+                h.append(["merge", 0, [1], [T("__eq__", y, BVV(0, 3)), T("__ne__", y, BVV(9 % 8, 3))], -1])
+            else:
+                h.append(["combine", 1, [0]])
+            H.append(h)
+    return H
+
 
 def directed_C18(tier, seed):
     """scripted pickle scenarios: replacements installed / removed around a round trip, tracked and untracked solvers
@@ -118,10 +192,14 @@ SPECS = {
                                cfg={"hybrid_exact": False})(tier, seed),
                 clauses=QUERY_CLAUSES | TRUTH_CLAUSES | APPROX_CLAUSES | {"isolation"}, level="model_checking"),
     "C15": dict(jobs=lambda tier, seed: jobs_generic(PLAIN + [["SolverHybrid", {}]], "c15", 40, 400, n=8, multi=True)(tier, seed)
-                + jobs_generic(COMPOSITE, "c15c", 40, 400, n=8, W=2, alpha="xyz", multi=True)(tier, seed),
+                + jobs_generic(COMPOSITE, "c15c", 40, 400, n=8, W=2, alpha="xyz", multi=True)(tier, seed)
+                + [{"mode": "list", "W": 3, "histories": directed_C15(tier, seed)[k::4], "probe": True, "tag": "c15d",
+                    "env": {"REUSE_Z3_SOLVER": "1" if k == 3 else "0"}} for k in range(4)],
                 clauses=QUERY_CLAUSES | TRUTH_CLAUSES | SPLIT_CLAUSES, level="model_checking"),
     "C16": dict(jobs=lambda tier, seed: jobs_generic(TRACKED, "c16", 50, 500, n=10)(tier, seed)
-                + jobs_generic(TRACKED, "c16m", 50, 500, n=6, multi=True)(tier, seed),
+                + jobs_generic(TRACKED, "c16m", 50, 500, n=6, multi=True)(tier, seed)
+                + [{"mode": "list", "W": 3, "histories": directed_C16(tier, seed)[k::2], "probe": True, "tag": "c16d",
+                    "env": {"REUSE_Z3_SOLVER": str(k)}} for k in range(2)],
                 clauses=CORE_CLAUSES | {"exc"}, level="model_checking"),
     "C17": dict(jobs=jobs_generic(PLAIN + COMPOSITE, "c17", 50, 500, faults=True, branchy=True),
                 clauses=QUERY_CLAUSES | FAULT_CLAUSES, level="fault_enumeration"),
@@ -333,6 +411,8 @@ def _pred_composite_unsat_flag(tr, k, clause):
         return False
     if clause in ("answer-on-unsat", "eval-on-unsat", "solution-on-unsat", "split-models"):
         return True
+    if clause == "core-satisfiable" and len(ev.get("rets", [])) == 0:
+        return True          # the derived solver does not know it is unsatisfiable: no core
     if clause == "satisfiable" and ev["ret"] == [[[1]]]:
         return True
     # a merge operand that is unsatisfiable only through the private flag contributes its merge condition as if it
@@ -362,7 +442,8 @@ def _pred_core_empty_on_concrete_false(tr, k, clause):
     evs = tr["ev"][:k]
     ev = evs[-1]
     return ev["call"] == "unsat_core" and clause == "core-satisfiable" and len(ev["rets"]) == 0 and \
-        any(e["call"] in ("add", "merge") and e.get("cfalse") for e in evs)
+        (any(e["call"] in ("add", "merge") and e.get("cfalse") for e in evs)
+         or any(t[0] == "BoolV" and t[2] == [0] for t in ev.get("scons", [])))
 
 
 def _pred_replacement_concrete_on_unsat(tr, k, clause):
